@@ -52,24 +52,28 @@ NSEC = 1000000000
 
 # ---- scenarios -----------------------------------------------------------------------------------
 class Scen:
-    def __init__(self, prim, init, sec, nsec, quantum, spur, eintr, progs):
+    def __init__(self, prim, init, sec, nsec, quantum, spur, eintr, progs, cfail=0):
+        self.cfail = cfail                                      # how often pthread_create may fail
         self.prim, self.init, self.sec, self.nsec, self.quantum = prim, init, sec, nsec, quantum
         self.spur, self.eintr, self.progs = spur, eintr, progs      # progs = [(ret, [op,...]), ...]
 
     def line(self):
         return (f"scen {self.prim} {self.init} {self.sec} {self.nsec} {self.quantum} {self.spur} {self.eintr} "
-                + " ".join(f"T:{r}:{','.join(ops)}" for r, ops in self.progs))
+                + (f"F:{self.cfail} " if self.cfail else "") + " ".join(f"T:{r}:{','.join(ops)}" for r, ops in self.progs))
 
     @staticmethod
     def parse(line):
         t = line.split()
         if len(t) < 9 or t[0] != "scen":
             return None
-        progs = []
+        progs, cfail = [], 0
         for tok in t[8:]:
+            if tok.startswith("F:"):
+                cfail = int(tok[2:])
+                continue
             _, r, ops = tok.split(":")
             progs.append((int(r), [o for o in ops.split(",") if o]))
-        return Scen(t[1], int(t[2]), int(t[3]), int(t[4]), int(t[5]), int(t[6]), int(t[7]), progs)
+        return Scen(t[1], int(t[2]), int(t[3]), int(t[4]), int(t[5]), int(t[6]), int(t[7]), progs, cfail)
 
 
 def gen_body(rng, prim, budget):
@@ -139,12 +143,16 @@ def gen_scen(rng, prim=None):
     main += joins
     if prim == "thr" or rng.random() < 0.15:           # Thread edge cases: double start, join twice, join unstarted
         j = rng.randrange(1, k + 1)
-        extra = rng.choice(["start", "join", "join0"])
+        extra = rng.choice(["start", "join", "join0", "dtor", "dtor"])
         if extra == "start":
             at = [i for i, o in enumerate(main) if o in (f"start-{j}", f"mstart-{j}")][0]
             main.insert(at + 1, f"start-{j}")
         elif extra == "join":
             main.append(f"join-{j}")
+        elif extra == "dtor":                      # ~Thread instead of join: joins a thread that is still attached
+            main[main.index(f"join-{j}")] = f"dtor-{j}"
+            if rng.random() < 0.5:
+                main.append(f"join-{j}")
         else:
             main.insert(0, f"join-{j}")
     progs = [(rets[0], main)] + [(rets[i + 1], workers[i]) for i in range(k)]
@@ -157,7 +165,8 @@ def gen_scen(rng, prim=None):
     nsec = rng.choice([0, 1, 999999999, 999000000, 500000000, 999999999 - (mx % 1000) * 1000000 if mx else 0, rng.randrange(NSEC)])
     nsec = min(max(nsec, 0), NSEC - 1)
     init = {"sem": rng.choice([0, 0, 1, 2]), "sig": rng.choice([0, 0, 1])}.get(prim, 0)
-    return Scen(prim, init, rng.choice([0, 5, 1700000000]), nsec, quantum, rng.choice([0, 1, 1, 2]), rng.choice([0, 1, 2]), progs)
+    cfail = rng.choice([0, 0, 0, 1, 2]) if prim == "thr" else rng.choice([0] * 9 + [1])
+    return Scen(prim, init, rng.choice([0, 5, 1700000000]), nsec, quantum, rng.choice([0, 1, 1, 2]), rng.choice([0, 1, 2]), progs, cfail)
 
 
 # ---- trace parsing ----------------------------------------------------------------------------------
@@ -237,6 +246,7 @@ def contracts(sc, tr):
     finished_at = [None] * n           # step index of the last step of a finished thread
     handle = [False] * n               # Thread object j holds a live handle
     errs = []
+    nfail = [0]
     wait_entering = [False] * n
 
     def begin(t, b):
@@ -326,10 +336,24 @@ def contracts(sc, tr):
                 if wait_true > sets_begun:
                     errs.append(f"monitor: {wait_true} successful waits but only {sets_begun} set() calls begun at step {i}")
         elif op == "start":
-            if (v == "1") != (not handle[c.arg]):
-                errs.append(f"Thread::start-{c.arg} returned {v} at step {i} with handle {'set' if handle[c.arg] else 'clear'}")
+            # false is legitimate when the object already holds a thread, or when pthread_create failed: the step that executed
+            # the pending create took alternative 1 (budgeted by the scenario)
+            create_failed = i >= 0 and c.b < i and tr.steps[i][1] == 1
+            if create_failed:
+                nfail[0] += 1
+            if v == "1" and handle[c.arg]:
+                errs.append(f"Thread::start-{c.arg} returned true at step {i} although the object already holds a thread")
+            if v == "0" and not handle[c.arg] and not (create_failed and nfail[0] <= sc.cfail):
+                errs.append(f"Thread::start-{c.arg} returned false at step {i} with a clear handle and no pthread_create failure")
+            if v == "1" and create_failed:
+                errs.append(f"Thread::start-{c.arg} returned true at step {i} although pthread_create failed")
             if v == "1":
                 handle[c.arg] = True
+        elif op == "dtor":
+            j = c.arg
+            if handle[j] and finished_at[j] is None:
+                errs.append(f"~Thread of object {j} returned at step {i} before the thread function finished")
+            handle[j] = False
         elif op == "join":
             j = c.arg
             if not handle[j]:
@@ -599,6 +623,8 @@ FIXED_SCENARIOS = [
     "scen sem 1 5 999999999 1000000 0 1 T:0:start-1,start-2,join-1,join-2 T:1:wait,twait-1 T:2:signal,trywait",
     "scen thr 0 0 0 1 0 0 T:0:join-1,start-1,start-1,join-1,join-1 T:4294967295:",
     "scen thr 0 0 0 1 0 0 T:7:mstart-1,mstart-1,join-1,join-1 T:2147483648:mstart-2,join-2 T:3:",
+    "scen thr 0 0 0 1 0 0 F:1 T:7:start-1,start-2,dtor-1,join-2,join-1,dtor-2 T:5: T:6:",
+    "scen sig 0 5 0 1 0 0 F:1 T:0:start-1,start-2,wait,dtor-1,dtor-2 T:1:set T:2:set",
     "scen sig 0 5 0 1 1 0 T:0:start-1,wait,destroy,join-1 T:1:set",
 ] + [
     # deadline arithmetic: timed waits of every primitive at clock phases where (ms within the second + timeout % 1000) does /
